@@ -54,13 +54,35 @@ def oracle(line, size, inc):
         return "read fill beyond the read buffer size"
     if rb + rbs > pos:
         return "read window [%d,+%d) outside the allocated front region (pos=%d)" % (rb, rbs, pos)
-    if ph in ("line", "hdrs") and rbo >= rbs:
+    if (ph in ("line", "hdrs", "foot") or (ph == "body" and d.get("ev") == "1")) and rbo >= rbs:
         return "connection waits for data with a full read buffer"
     return None
 
 
-def mk_case(ps, inc, lvl, pieces):
-    return ["crinit %d %d %d" % (ps, inc, lvl)] + ["crfeed " + hx(p) for p in pieces]
+def mk_case(ps, inc, lvl, pieces, pat=None):
+    return ["crinit %d %d %d%s" % (ps, inc, lvl, (" " + ",".join(map(str, pat))) if pat else "")] + ["crfeed " + hx(p) for p in pieces]
+
+
+def body_request(rng, ps):
+    """a request with a body (identity / chunked incl. extensions and trailers), maybe malformed, maybe pipelined"""
+    size = rng.choice([0, 1, 5, 17, ps // 8, ps // 3, ps // 2, ps, 2 * ps])
+    data = bytes((97 + i % 26) for i in range(size))
+    ver = rng.choice([b"1.1", b"1.1", b"1.0"])
+    conn = rng.choice([b"", b"", b"Connection: close\r\n", b"Connection: Keep-Alive\r\n"])
+    if rng.random() < 0.5:
+        req = b"POST /u HTTP/" + ver + b"\r\nHost: h\r\n" + conn + b"Content-Length: %d\r\n\r\n" % size + data
+    else:
+        req = b"POST /u HTTP/" + ver + b"\r\nHost: h\r\n" + conn + b"Transfer-Encoding: chunked\r\n\r\n"
+        left, i = size, 0
+        while left > 0:
+            n = min(left, rng.choice([1, 7, 16, 100, 1000]))
+            ext = rng.choice([b"", b"", b";x=y", b" ;a", b";" + b"e" * rng.choice([3, 40])])
+            eol = rng.choice([b"\r\n", b"\r\n", b"\r\n", b"\n"])
+            req += (b"%x" % n if rng.random() < 0.8 else b"%X" % n) + ext + eol + data[i:i + n] + eol
+            left -= n; i += n
+        req += b"0" + rng.choice([b"\r\n", b";last\r\n"]) + rng.choice([b"", b"T: v\r\n", b"Tr1: a\r\nTr2:  b \r\n"]) + b"\r\n"
+    return req
+
 
 
 def gen_cases(ctx, n_random):
@@ -76,12 +98,30 @@ def gen_cases(ctx, n_random):
         totals = sorted({t + d for t in (ps // 4, ps // 2, (ps * 3) // 4, ps - 64, ps - 16, ps) for d in (-2, -1, 0, 1, 2) if t + d > 20})
         for total in totals:
             for last in ("arg", "argnoeq", "args2", "header", "none"):
-                if ctx.tier == "quick" and rng.random() < 0.6:
+                if ctx.tier == "quick" and rng.random() < 0.75:
                     continue
                 data = C01.build_request(total, last, rng.choice([b"1.0", b"1.1"]), rng.choice(["none", "junk", "next"]), rng)
                 how = rng.choice(["whole", "mark", "rand"] + (["bytes"] if len(data) <= 300 else []))
                 cases.append((mk_case(ps, rng.choice(incs), rng.randint(-3, 3), C01.splits_of(data, how, rng, marks)),
                               {"fam": "sized:" + last, "how": how}))
+    # bodies (identity / chunked / trailers), handler take patterns, pipelined sequences, idle rounds without data
+    for i in range(n_random):
+        ps = rng.choice(pools)
+        nreq = rng.choice([1, 1, 2, 3])
+        data = b"".join(rng.choice([body_request(rng, ps), b"GET /n HTTP/1.1\r\nHost: h\r\n\r\n",
+                                   C01.build_request(rng.choice([40, ps // 2]), "arg", b"1.1", "none", rng)]) for _ in range(nreq))
+        fam = "body"
+        if rng.random() < 0.25:
+            data = C01.mutate(data, rng); fam = "body-mutated"
+        how = rng.choice(["whole", "rand", "rand"] + (["bytes"] if len(data) <= 200 else []))
+        pieces = []
+        for pc in C01.splits_of(data, how, rng):
+            pieces.append(pc)
+            for _ in range(rng.choice([0, 0, 1, 3])):
+                pieces.append(b"")
+        pieces += [b""] * rng.choice([0, 2, 6])
+        pat = rng.choice([None, None, [1], [0, 5], [3, 0, 0, 100], [ps], [7, 1000000], [0]])
+        cases.append((mk_case(ps, rng.choice(incs), rng.randint(-3, 3), pieces, pat), {"fam": fam, "how": how}))
     for i in range(n_random):
         ps = rng.choice(pools)
         r = rng.random()
@@ -145,7 +185,11 @@ def run_batch(harness, driver, batch, failures, stats):
                 failures.append(vlib.Failure("diff", "connread: model/code differ", "code '%s' model '%s'" % (h[:200], m[:200]), c[:j + 1], "mem"))
                 break
             d = kv(h)
-            if prev is not None and d.get("ph") in ("line", "hdrs"):
+            if prev is not None and d.get("ph") in ("line", "hdrs") and prev.get("ph") in ("body", "foot"):
+                stats["resets(next request)"] += 1
+            if d.get("ph") == "body" and d.get("ev") == "0":
+                stats["body_process_only"] += 1
+            if prev is not None and d.get("ph") in ("line", "hdrs", "body", "foot"):
                 if int(d["rbs"]) + int(d["rb"]) > int(prev["rbs"]) + int(prev["rb"]):
                     stats["grown"] += 1
             prev = d if d.get("ph") != "err" else None
@@ -163,8 +207,8 @@ def run_batch(harness, driver, batch, failures, stats):
 
 def explore(ctx, harness, driver, boost):
     failures = []
-    stats = {"grown": 0, "elements_total": 0, "done_with_readahead": 0}
-    n = (12000 if ctx.tier == "thorough" else 700) * (3 if boost else 1)
+    stats = {"grown": 0, "elements_total": 0, "done_with_readahead": 0, "resets(next request)": 0, "body_process_only": 0}
+    n = (2500 if ctx.tier == "thorough" else 220) * (3 if boost else 1)
     cases = gen_cases(ctx, n)
     for i in range(0, len(cases), 400):
         run_batch(harness, driver, cases[i:i + 400], failures, stats)
